@@ -231,6 +231,7 @@ func c15Units(tier string) []Unit {
 	// existing consumer of the key (the consumer registered before or after
 	// the child came to see it)
 	add("shadowing-cycles", h.Config{}, alpha{scopes: sc, ctors: []*uFunc{pA, pB, rAB, pCb}, invokes: []*uFunc{iA, iB}})
+	add("same-type-two-names-cycles", h.Config{}, alpha{scopes: sc, ctors: []*uFunc{pA, pBaa, rAnB, pAn}, invokes: []*uFunc{iB}})
 	if !q {
 		add("defer/positional", h.Config{Defer: true}, alpha{scopes: sc, ctors: []*uFunc{pA, pB, pC, rAB}, export: true, decos: []*uFunc{dA}, invokes: []*uFunc{iA, iC}})
 	}
